@@ -9,9 +9,23 @@ sys.path.insert(0, HERE)
 sys.path.insert(0, os.path.join(os.path.dirname(HERE), "checks"))
 import vlib
 
-MODULE_OF = {
-    "C08": "store", "C09": "store",
-}
+def discover():
+    """checks/<family>.py declares PROPS = [...] (and CLAIMS for the manifest); only READY modules are used."""
+    out = {}
+    cdir = os.path.join(os.path.dirname(HERE), "checks")
+    for f in sorted(os.listdir(cdir)):
+        if not f.endswith(".py") or f.startswith("_"):
+            continue
+        txt = open(os.path.join(cdir, f)).read()
+        import re
+        m = re.search(r"^PROPS\s*=\s*(\[.*?\])", txt, re.M | re.S)
+        if m:
+            for p in json.loads(m.group(1).replace("'", '"')):
+                out[p] = f[:-3]
+    return out
+
+
+MODULE_OF = discover()
 
 
 def main():
